@@ -116,6 +116,14 @@ const HELPERS: &[(&str, &str)] = &[
         "make-ictr",
         "(define (make-ictr k) (define n k) (define (bump) (set! n (+ n 1)) n) (bump) (lambda () (bump) n))",
     ),
+    ("make-bctr", "(define (make-bctr k) (begin (define n k) (lambda () (set! n (+ n 1)) n)))"),
+    (
+        "make-cctr",
+        "(define (make-cctr k) (cond ((< k 0) (lambda () k)) ((= k 1000) 0) (else (set! k (+ k 1)) (lambda () (set! k (+ k 1)) k))))",
+    ),
+    ("make-wctr", "(define (make-wctr k) (when (>= k 0) (set! k (+ k 1)) (lambda () (set! k (+ k 2)) k)))"),
+    ("make-octr", "(define (make-octr k) (or (and (< k 0) k) (lambda () (set! k (+ k 1)) k)))"),
+    ("make-actr", "(define (make-actr k) (and k (>= k 0) (lambda () (set! k (+ k 1)) k)))"),
     ("pair-up", "(define (pair-up a . r) (cons a r))"),
     (
         "make-chain",
@@ -1146,16 +1154,78 @@ impl Gen {
                 if self.names_with(Role::Counter).len() >= 8 {
                     return false;
                 }
-                let which = *self.rng.pick(&["make-late", "make-lctr", "make-l2"]);
+                // ... or by the bodies of the bundled derived forms (begin, cond, when, or, and)
+                let which = *self.rng.pick(&[
+                    "make-late", "make-lctr", "make-l2", "make-bctr", "make-cctr", "make-wctr", "make-octr", "make-actr",
+                ]);
                 self.need(which);
                 let c = self.fresh("c");
                 self.roles.insert(c.clone(), Role::Counter);
                 let sx = if which == "make-late" {
                     list(vec![sym(which)])
                 } else {
-                    call(which, vec![int(self.small_lit())])
+                    let k = self.small_lit().abs();
+                    call(which, vec![int(k)])
                 };
                 self.emit(list(vec![sym("define"), sym(&c), sx]), &format!("mk-counter-{}", which), vec![c], true);
+                true
+            }
+            40 => {
+                // a write placed inside a bundled derived form: the body of begin / when / unless /
+                // cond / and / or is evaluated in the scope it is written in
+                let g = self.ensure_int();
+                let k = self.small_lit();
+                let write: Sx = if self.rng.chance(1, 2) {
+                    list(vec![sym("set!"), sym(&g), int(k)])
+                } else {
+                    let vn = self.ensure_vec();
+                    let len = self.vec_id(&vn).map(|id| self.m.vectors[id].items.len()).unwrap_or(0);
+                    if len == 0 || !self.vec_id(&vn).map(|id| self.m.vectors[id].mutable).unwrap_or(false) {
+                        list(vec![sym("set!"), sym(&g), int(k)])
+                    } else {
+                        call("vector-set!", vec![sym(&vn), int(self.rng.upto(len) as i64), int(k)])
+                    }
+                };
+                let roots: Vec<String> = match &write {
+                    Sx::List(w) if w[0].as_sym() == Some("vector-set!") => vec![w[1].as_sym().unwrap().to_string()],
+                    _ => vec![g.clone()],
+                };
+                let read = sym(&g);
+                let shape = self.rng.upto(8);
+                let (sx, kind) = match shape {
+                    0 => (list(vec![sym("begin"), write, read]), "write-in-begin"),
+                    1 => (list(vec![sym("when"), call("=", vec![int(1), int(1)]), write, read]), "write-in-when"),
+                    2 => (list(vec![sym("unless"), call("=", vec![int(1), int(2)]), write, read]), "write-in-unless"),
+                    3 => (
+                        list(vec![
+                            sym("cond"),
+                            list(vec![call("=", vec![int(1), int(2)]), int(0)]),
+                            list(vec![call("=", vec![int(1), int(1)]), write, read]),
+                            list(vec![sym("else"), int(1)]),
+                        ]),
+                        "write-in-cond-clause",
+                    ),
+                    4 => (
+                        list(vec![sym("cond"), list(vec![Sx::Bool(false), int(0)]), list(vec![sym("else"), write, read])]),
+                        "write-in-cond-else",
+                    ),
+                    5 => (list(vec![sym("and"), int(1), list(vec![sym("begin"), write, int(2)]), read]), "write-in-and"),
+                    6 => (list(vec![sym("or"), Sx::Bool(false), list(vec![sym("begin"), write, Sx::Bool(false)]), read]), "write-in-or"),
+                    _ => (
+                        // the value of the test handed to the receiver
+                        list(vec![
+                            sym("cond"),
+                            list(vec![
+                                list(vec![sym("begin"), write, read.clone()]),
+                                sym("=>"),
+                                list(vec![sym("lambda"), list(vec![sym("t")]), call("+", vec![sym("t"), read])]),
+                            ]),
+                            list(vec![sym("else"), int(0)]),
+                        ]),
+                        "write-in-cond-receiver",
+                    ),
+                };
+                self.emit(sx, kind, roots, true);
                 true
             }
             37 => {
@@ -1487,6 +1557,16 @@ impl Gen {
         out
     }
 
+    /// a derived form either stands where it is or becomes the (tail) body of a procedure
+    fn in_procedure_or_inline(&mut self, form: Sx, label: &str, int_valued: bool) -> Option<(Sx, String, bool)> {
+        if self.rng.chance(1, 2) {
+            return Some((form, label.to_string(), int_valued));
+        }
+        let name = self.fresh("tx");
+        self.emit(list(vec![sym("define"), list(vec![sym(&name)]), form]), "def-tx", vec![], false);
+        Some((list(vec![sym(&name)]), format!("{}-in-procedure", label), int_valued))
+    }
+
     /// wrap expression `e` (int-valued when it does not fault) in a calling context.
     /// Returns the new expression and a label.
     fn wrap(&mut self, e: Sx, ctx: usize, int_valued: bool) -> Option<(Sx, String, bool)> {
@@ -1739,6 +1819,95 @@ impl Gen {
                     true,
                 ))
             }
+            13 => {
+                // the fault inside a cond: as a test, in a clause body, as the tested value handed
+                // to a receiver, in the else body
+                let shape = self.rng.upto(4);
+                let mut pre = self.pre_effects();
+                let (form, label, iv) = match shape {
+                    0 => (
+                        list(vec![sym("cond"), list(vec![Sx::Bool(false), int(5)]), list(vec![e, int(1)]), list(vec![sym("else"), int(2)])]),
+                        "cond-test",
+                        true,
+                    ),
+                    1 => {
+                        let mut clause = vec![call("=", vec![int(1), int(1)])];
+                        clause.append(&mut pre);
+                        clause.push(e);
+                        (
+                            list(vec![sym("cond"), list(vec![call("=", vec![int(1), int(2)]), int(5)]), list(clause), list(vec![sym("else"), int(7)])]),
+                            "cond-clause-body",
+                            int_valued,
+                        )
+                    }
+                    2 => {
+                        if !int_valued {
+                            return None;
+                        }
+                        (
+                            list(vec![
+                                sym("cond"),
+                                list(vec![e, sym("=>"), list(vec![sym("lambda"), list(vec![sym("t")]), call("+", vec![sym("t"), int(1)])])]),
+                                list(vec![sym("else"), int(0)]),
+                            ]),
+                            "cond-receiver",
+                            true,
+                        )
+                    }
+                    _ => {
+                        let mut clause = vec![sym("else")];
+                        clause.append(&mut pre);
+                        clause.push(e);
+                        (list(vec![sym("cond"), list(vec![Sx::Bool(false), int(5)]), list(clause)]), "cond-else", int_valued)
+                    }
+                };
+                self.in_procedure_or_inline(form, label, iv)
+            }
+            14 => {
+                // the fault as an operand of and / or
+                let shape = self.rng.upto(4);
+                let (form, label, iv) = match shape {
+                    0 => (list(vec![sym("and"), int(1), e, int(2)]), "and-middle", true),
+                    1 => (list(vec![sym("and"), int(1), e]), "and-last", int_valued),
+                    2 => (list(vec![sym("or"), Sx::Bool(false), e]), "or-last", int_valued),
+                    _ => (list(vec![sym("or"), Sx::Bool(false), e, int(3)]), "or-middle", int_valued),
+                };
+                self.in_procedure_or_inline(form, label, iv)
+            }
+            15 => {
+                // the fault in the body of when / unless / begin, with effects before and after
+                let shape = self.rng.upto(4);
+                if shape == 3 {
+                    // the fault is the test itself
+                    // (two results: the bundled rule `(when test result1 result2 ...)` refuses a
+                    // single one — a macro-matching matter, C04/C05, not this property's)
+                    let f = list(vec![sym("when"), e, int(3), int(4)]);
+                    return self.in_procedure_or_inline(f, "when-test", true);
+                }
+                let mut body = self.pre_effects();
+                if body.is_empty() {
+                    self.next_note += 1;
+                    body.push(call("sim-note", vec![int(self.next_note)]));
+                }
+                body.push(e);
+                let tail = self.rng.chance(1, 2);
+                let mut iv = int_valued;
+                if !tail {
+                    self.next_note += 1;
+                    body.push(call("sim-note", vec![int(self.next_note)]));
+                    let g = self.ensure_int();
+                    body.push(list(vec![sym("set!"), sym(&g), int(self.small_lit())]));
+                    body.push(int(0));
+                    iv = true;
+                }
+                let (mut form, label) = match shape {
+                    0 => (vec![sym("when"), call("=", vec![int(1), int(1)])], "when-body"),
+                    1 => (vec![sym("unless"), call("=", vec![int(1), int(2)])], "unless-body"),
+                    _ => (vec![sym("begin")], "begin-body"),
+                };
+                form.append(&mut body);
+                self.in_procedure_or_inline(list(form), label, iv)
+            }
             8 => {
                 // many frames between the fault and the top level, none of them a tail call
                 if !int_valued {
@@ -1788,7 +1957,7 @@ impl Gen {
         let depth = self.rng.pick_weighted(&[2, 5, 3]);
         let mut top = depth == 0;
         for _ in 0..depth {
-            let ctx = self.rng.upto(13);
+            let ctx = self.rng.upto(16);
             if let Some((ne, label, iv)) = self.wrap(e.clone(), ctx, int_valued) {
                 e = ne;
                 int_valued = iv;
@@ -1829,7 +1998,7 @@ pub fn generate_a(seed: u64, quick: bool, faults: bool) -> Value {
     let hash_seed = rng.next_u64() | 1;
     // swarm configuration
     let steps = if quick { rng.range(10, 40) } else { rng.range(10, 60) } as usize;
-    let nops = 40;
+    let nops = 41;
     let mut weights: Vec<u32> = (0..nops).map(|_| if rng.chance(1, 4) { 0 } else { rng.range(1, 6) as u32 }).collect();
     if weights.iter().all(|w| *w == 0) {
         weights[0] = 1;
